@@ -1,6 +1,9 @@
 """C06 — switching between rig poses and per-sensor poses never moves a sensor.
 Implementation under test: kapture.rigs_remove, rigs_remove_inplace, rigs_recover, rigs_recover_inplace
-(kapture/core/Trajectories.py), through Rigs and PoseTransform.compose / inverse."""
+(kapture/core/Trajectories.py), through Rigs and PoseTransform.compose / inverse.
+Two kinds of cases: a single configuration (the four functions on fresh objects), and `kind: history` (a sequence of
+calls, rig edits and trajectory refills on ONE Rigs and ONE Trajectories object, each call judged against the objects as
+they are at that call)."""
 import copy
 from fractions import Fraction
 
@@ -9,8 +12,8 @@ import kv
 ID = 'C06'
 COQ_MODELS = ['MQV', 'MPose', 'MRigs']
 COQ_HEADER = 'From KV Require Import Eqb AL Str.\nFrom KV.Model Require Import MQV MPose MRigs.'
-CASE_TYPE = 'MRigs.case'
-CHECK_FN = 'MRigs.check_case'
+CASE_TYPE = 'MRigs.xcase'
+CHECK_FN = 'MRigs.check_xcase'
 SHARD_SIZE = 16
 CASE_TIMEOUT = 60
 RULE = ('case = rig forest (0..4 rigs, 1..4 members, nesting 0..3, members sensors or rigs, free sensors) + trajectories over '
@@ -18,8 +21,15 @@ RULE = ('case = rig forest (0..4 rigs, 1..4 members, nesting 0..3, members senso
         'root path, member poses derived exactly from one rig pose per tree and timestamp; mixed-arbitrary: same key '
         'pattern, independent poses) + master list (none / one live member per rig and timestamp / junk); plus a malformed '
         'stream outside the quantifier (double sources, a sensor in two rigs, empty rigs, empty timestamps, cyclic rigs, '
-        'chains of depth 4..12, explicit recover inputs) on which only model/code agreement is required. '
-        'Non-trivial = at least one rig is posed at some timestamp; distinct = distinct case content.')
+        'chains of depth 4..12, explicit recover inputs) on which only model/code agreement is required; plus a '
+        'near-identity stream (member poses, sub-rig mounts and rig poses that are exactly the identity / within 1e-6 of it / '
+        'inside the tolerance of PoseTransform.__eq__ (1e-5 on t, 1e-2 per quaternion component) but not the identity / just '
+        'outside it, next to translations of 100..1000); plus histories on ONE Rigs and ONE Trajectories object: 4..14 steps '
+        'of rigs_remove / rigs_remove_inplace / rigs_recover / rigs_recover_inplace interleaved with edits of the rigs through '
+        'rigs[r, d] = p, rigs[r] = {..}, rigs[r][d] = p, rigs[r].update, del rigs[r][d], rigs[r].pop, del rigs[r], pop, '
+        'popitem, update, |=, setdefault, clear (some raising KeyError) and refills of the trajectories; every call is judged '
+        'against the rigs and trajectories as they are at that call. '
+        'Non-trivial = at least one rig is posed at some timestamp (history: at some call); distinct = distinct case content.')
 NOTES = ['copy.deepcopy(Trajectories) rebuilds the copy through __setitem__, which drops empty timestamps (repo fix for C07): the '
          'copying variants therefore differ from the in-place ones on inputs that hold an empty timestamp; modelled (deepcopy_traj)']
 TRUSTED = ['float rounding of PoseTransform.compose / inverse (numpy, numpy-quaternion, numba): the model is exact over Q and '
@@ -30,7 +40,11 @@ ASSUMPTIONS = ['every PoseTransform has both parts and a non-zero quaternion (ze
                'the oracle judges remove only when the forest is valid (one parent, acyclic, every rig has a member), no '
                'device has two pose sources at one timestamp and no timestamp is empty; it judges recover only on the output '
                'of remove for trajectories whose poses are consistent with one rig pose per tree and timestamp, with masters '
-               'unspecified or hitting one live member per rig and timestamp']
+               'unspecified or hitting one live member per rig and timestamp',
+               'in a history every call is judged on the snapshot of the Rigs / Trajectories objects taken just before it: '
+               'remove as above; recover when the forest is valid, no device has two sources and the posed devices of every '
+               'tree agree on one root pose (1e-12) -- then no posed sensor may move; the top-level rig poses must come back '
+               'when the trajectories are the untouched result of a judged rigs_remove_inplace under the same rigs']
 EXHAUSTIVE = {'quick': False, 'thorough': False}
 TOL = Fraction(1, 10 ** 9)
 
@@ -248,7 +262,8 @@ def _rand_pose(rng, full=False):
     return _rand_quat(rng, full) + t
 
 
-def _gen_forest(rng, n_rigs, max_nest, n_free, full=False):
+def _gen_forest(rng, n_rigs, max_nest, n_free, full=False, pose_fn=None):
+    pose_fn = pose_fn or (lambda: _rand_pose(rng, full))
     rnames = rng.sample(_NAMES_R, n_rigs)
     snames = rng.sample(_NAMES_S, len(_NAMES_S))
     level = {}
@@ -270,12 +285,13 @@ def _gen_forest(rng, n_rigs, max_nest, n_free, full=False):
         rng.shuffle(members[r])
     order = list(rnames)
     rng.shuffle(order)
-    rigs = [[r, [[d, _rand_pose(rng, full)] for d in members[r]]] for r in order]
+    rigs = [[r, [[d, pose_fn()] for d in members[r]]] for r in order]
     free = [snames.pop() for _ in range(min(n_free, len(snames)))]
     return rigs, free
 
 
-def _gen_traj(rng, rigs, free, n_ts, cls, full=False):
+def _gen_traj(rng, rigs, free, n_ts, cls, full=False, pose_fn=None):
+    pose_fn = pose_fn or (lambda: _rand_pose(rng, full))
     case0 = {'rigs': rigs, 'traj': []}
     rg, parents = _forest(case0)
     roots = [r for r in rg if r not in parents]
@@ -287,9 +303,9 @@ def _gen_traj(rng, rigs, free, n_ts, cls, full=False):
         m = []
         for f in free:
             if rng.random() < 0.7:
-                m.append([f, _rand_pose(rng, full)])
+                m.append([f, pose_fn()])
         for root in roots:
-            w_root = _rand_pose(rng, full)
+            w_root = pose_fn()
             exact = {root: _fr(w_root)}
 
             def world(d, r=None):
@@ -315,7 +331,7 @@ def _gen_traj(rng, rigs, free, n_ts, cls, full=False):
 
             def emit(d):
                 if cls == 'arb' and d != root:
-                    m.append([d, _rand_pose(rng, full)])
+                    m.append([d, pose_fn()])
                 elif d == root:
                     m.append([d, w_root])
                 else:
@@ -409,6 +425,285 @@ def _malformed(rng, k):
     return c
 
 
+# ------------------------------------------------------------------ structured poses around the identity
+# PoseTransform.__eq__ is tolerant (math.isclose: 1e-5 on every translation component, 1e-2 on every quaternion
+# component), so "is this pose the identity" asked with == says yes for a co-located sensor with an angular offset of
+# up to about one degree.  The classes: exactly the identity / within 1e-6 of it / inside that tolerance / just outside.
+_NEAR_CLASSES = ['id', 'tiny', 'in', 'in', 'in', 'edge', 'edge']
+
+
+def _near_identity(rng, full=False, cls=None):
+    cls = cls or rng.choice(_NEAR_CLASSES)
+    if cls == 'id':
+        return [1.0, 0.0, 0.0, 0.0, 0.0, 0.0, 0.0]
+    shape = rng.choice(['rot', 'rot', 'trans', 'both', 'both'])   # rot: co-located, small angular offset
+    if full:
+        aq, at = {'tiny': (1e-6, 1e-6), 'in': (9.9e-3, 9.9e-6), 'edge': (9.9e-3, 9.9e-6)}[cls]
+        q = [1.0] + [rng.uniform(-aq, aq) for _ in range(3)]
+        t = [rng.uniform(-at, at) for _ in range(3)]
+        if cls == 'edge':
+            k, sgn = rng.randrange(3), rng.choice([-1, 1])
+            if shape == 'trans' or (shape == 'both' and rng.random() < 0.5):
+                t[k] = sgn * rng.uniform(1.01e-5, 1.3e-5)
+            else:
+                q[1 + k] = sgn * rng.uniform(1.03e-2, 1.3e-2)   # still > 1e-2 after normalisation
+        if rng.random() < 0.6:
+            n = sum(x * x for x in q) ** 0.5
+            q = [x / n for x in q]
+    else:
+        # short dyadic values: 10/1024 = 0.0098 < 1e-2 < 11/1024;  10/2^20 = 9.5e-6 < 1e-5 < 11/2^20;  16/2^24 = 9.5e-7
+        kq, dq, kt, dt = {'tiny': (16, 2 ** 24, 16, 2 ** 24), 'in': (10, 1024, 10, 2 ** 20), 'edge': (10, 1024, 10, 2 ** 20)}[cls]
+        q = [1.0] + [rng.randint(-kq, kq) / dq for _ in range(3)]
+        if rng.random() < 0.3:
+            q[0] = 1.0 + rng.randint(-kq, kq) / dq              # not a unit quaternion, still == identity
+        t = [rng.randint(-kt, kt) / dt for _ in range(3)]
+        if cls == 'edge':
+            k, sgn = rng.randrange(3), rng.choice([-1, 1])
+            if shape == 'trans' or (shape == 'both' and rng.random() < 0.5):
+                t[k] = sgn * rng.choice([11, 12, 16]) / 2 ** 20
+            else:
+                q[1 + k] = sgn * rng.choice([11 / 1024, 21 / 2048, 3 / 256])
+    if shape == 'rot':
+        t = [0.0, 0.0, 0.0]
+    elif shape == 'trans':
+        q = [1.0, 0.0, 0.0, 0.0]
+    if q == [1.0, 0.0, 0.0, 0.0] and t == [0.0, 0.0, 0.0]:          # must not be the identity
+        if shape == 'trans':
+            t[rng.randrange(3)] = {'tiny': 2.0 ** -24, 'in': 2.0 ** -18, 'edge': 11 / 2 ** 20}[cls]
+        else:
+            q[1 + rng.randrange(3)] = {'tiny': 2.0 ** -24, 'in': 2.0 ** -8, 'edge': 11 / 1024}[cls]
+    return [float(x) for x in q + t]
+
+
+def _far_pose(rng, full=False):
+    """a general rotation with a translation of 100..1000: next to it a dropped 1-degree offset moves a sensor by metres"""
+    q = _rand_quat(rng, full)
+    if full:
+        return q + [rng.choice([-1, 1]) * rng.uniform(50, 1000) for _ in range(3)]
+    return q + [float(rng.choice([-1, 1]) * rng.randint(50, 1000)) for _ in range(3)]
+
+
+def _gen_near_identity_case(rng):
+    full = rng.random() < 0.2
+    p_near = rng.choice([0.3, 0.6, 1.0])
+    far = rng.random() < 0.6
+
+    def other():
+        return _far_pose(rng, full) if far and rng.random() < 0.7 else _rand_pose(rng, full)
+
+    def member_pose():
+        return _near_identity(rng, full) if rng.random() < p_near else other()
+
+    def world_pose():                       # rig poses / free sensors: near the world origin now and then
+        return _near_identity(rng, full) if rng.random() < 0.3 else other()
+    n_rigs = rng.choice([1, 1, 2, 2, 3, 4])
+    rigs, free = _gen_forest(rng, n_rigs, rng.choice([1, 2, 3]), rng.randint(0, 1), full, member_pose)
+    cls = rng.choice(['roots', 'roots', 'mixed'])
+    traj = _gen_traj(rng, rigs, free, rng.choice([1, 2, 3]), cls, full, world_pose)
+    mk = rng.choice(['none', 'none', 'valid'])
+    masters = _gen_masters(rng, rigs, traj, mk)
+    return {'rigs': rigs, 'traj': traj, 'masters': masters, 'rec_in': None,
+            'cls': 'near-identity:' + cls + '/m=' + mk + ('/full' if full else '')}
+
+
+# ------------------------------------------------------------------ histories on ONE Rigs and ONE Trajectories object
+_EDIT_PATHS = ['inner_set'] * 4 + ['inner_del'] * 3 + ['inner_pop', 'inner_update', 'pair_set', 'rig_set', 'rig_del', 'pop',
+                                                         'popitem', 'update', 'update', 'update', 'ior', 'setdefault', 'clear']
+
+
+def _model_edit(R, e):
+    """the edit on the list-of-lists picture of the rigs (generator's bookkeeping only; the oracle uses the snapshots of
+    the real object, the Coq model has its own apply_edit).  Returns False for a KeyError."""
+    how = e['how']
+    idx = {r: i for i, (r, _) in enumerate(R)}
+
+    def put(ms, d, p):
+        for x in ms:
+            if x[0] == d:
+                x[1] = p
+                return
+        ms.append([d, p])
+    if how == 'pair_set':
+        if e['r'] not in idx:
+            R.append([e['r'], []])
+            idx[e['r']] = len(R) - 1
+        put(R[idx[e['r']]][1], e['d'], e['p'])
+    elif how in ('rig_set', 'setdefault'):
+        if e['r'] in idx:
+            if how == 'rig_set':
+                R[idx[e['r']]][1] = copy.deepcopy(e['m'])
+        else:
+            R.append([e['r'], copy.deepcopy(e['m'])])
+    elif how in ('inner_set', 'inner_update'):
+        if e['r'] not in idx:
+            return False
+        for d, p in ([[e['d'], e['p']]] if how == 'inner_set' else e['m']):
+            put(R[idx[e['r']]][1], d, p)
+    elif how in ('inner_del', 'inner_pop'):
+        if e['r'] not in idx or e['d'] not in [d for d, _ in R[idx[e['r']]][1]]:
+            return False
+        R[idx[e['r']]][1] = [x for x in R[idx[e['r']]][1] if x[0] != e['d']]
+    elif how in ('rig_del', 'pop'):
+        if e['r'] not in idx:
+            return False
+        del R[idx[e['r']]]
+    elif how == 'popitem':
+        if not R:
+            return False
+        R.pop()
+    elif how in ('update', 'ior'):
+        for r, ms in e['o']:
+            if r in idx:
+                R[idx[r]][1] = copy.deepcopy(ms)
+            else:
+                R.append([r, copy.deepcopy(ms)])
+                idx[r] = len(R) - 1
+    elif how == 'clear':
+        del R[:]
+    return True
+
+
+def _gen_edit(rng, R, free, P):
+    """one edit of the rigs, mostly keeping a valid forest; `free` = known devices that are neither rigs nor mounted"""
+    rg, parents = _forest({'rigs': R})
+    used = set(rg) | set(parents) | set(free)
+    how = rng.choice(_EDIT_PATHS)
+    if not R and how not in ('clear', 'popitem', 'pop', 'inner_del'):
+        how = rng.choice(['pair_set', 'rig_set', 'update', 'ior', 'setdefault'])
+
+    def fresh(pool, n=1):
+        cands = [x for x in pool if x not in used]
+        out = rng.sample(cands, min(n, len(cands)))
+        used.update(out)
+        return out
+
+    def new_sensor():
+        if free and rng.random() < 0.3:
+            return rng.choice(free)                      # re-mount a device that was unmounted / was free
+        f = fresh(_NAMES_S)
+        return f[0] if f else 'extra_sensor'
+
+    def new_rig_entry():
+        name = (fresh(_NAMES_R) or ['extra_rig'])[0]
+        return [name, [[d, P()] for d in fresh(_NAMES_S, rng.randint(1, 3))] or [['extra_sensor2', P()]]]
+    nonempty = [r for r, ms in R if ms]
+    if how in ('inner_set', 'pair_set'):
+        if how == 'pair_set' and (not R or rng.random() < 0.25):
+            r, ms = new_rig_entry()
+            return {'how': how, 'r': r, 'd': ms[0][0], 'p': P()}
+        if rng.random() < 0.05 and how == 'inner_set':
+            return {'how': how, 'r': 'no_such_rig', 'd': 'x', 'p': P()}           # KeyError
+        r = rng.choice(nonempty or [x for x, _ in R])
+        up = {r} | {a for a, _ in (_chain_up(parents, rg, r) or [])}
+        tops = [x for x in rg if x not in parents and x not in up]
+        k = rng.random()
+        if rg[r] and k < 0.65:
+            d = rng.choice(list(rg[r]))                                              # re-calibration of a member
+        elif tops and k < 0.8:
+            d = rng.choice(tops)                                                     # a top-level rig becomes a sub-rig
+        else:
+            d = new_sensor()
+        return {'how': how, 'r': r, 'd': d, 'p': P()}
+    if how == 'inner_update':
+        r = rng.choice([x for x, _ in R])
+        ds = ([rng.choice(list(rg[r]))] if rg[r] else []) + ([new_sensor()] if rng.random() < 0.5 else [])
+        return {'how': how, 'r': r, 'm': [[d, P()] for d in dict.fromkeys(ds)]}
+    if how in ('inner_del', 'inner_pop'):
+        if not R or rng.random() < 0.06:
+            return {'how': how, 'r': rng.choice([x for x, _ in R] + ['no_such_rig']), 'd': 'no_such_member'}   # KeyError
+        big = [r for r, ms in R if len(ms) >= 2]
+        r = rng.choice(big) if big and rng.random() < 0.9 else rng.choice(nonempty or [x for x, _ in R])
+        if not rg[r]:
+            return {'how': how, 'r': r, 'd': 'no_such_member'}
+        return {'how': how, 'r': r, 'd': rng.choice(list(rg[r]))}
+    if how == 'rig_set':
+        if R and rng.random() < 0.4:
+            r = rng.choice([x for x, _ in R])                                       # same members, new geometry
+            return {'how': how, 'r': r, 'm': [[d, P()] for d in rg[r]] or [[new_sensor(), P()]]}
+        r, ms = new_rig_entry()
+        return {'how': how, 'r': r, 'm': ms}
+    if how in ('rig_del', 'pop'):
+        if not R or rng.random() < 0.06:
+            return {'how': how, 'r': 'no_such_rig'}                                 # KeyError
+        return {'how': how, 'r': rng.choice([x for x, _ in R])}
+    if how in ('update', 'ior'):
+        o = []
+        for _ in range(rng.choice([1, 1, 2])):
+            if R and rng.random() < 0.35:
+                r = rng.choice([x for x, _ in R])
+                if r not in [x for x, _ in o]:
+                    o.append([r, [[d, P()] for d in rg[r]] or [[new_sensor(), P()]]])   # same members, new geometry
+            else:
+                o.append(new_rig_entry())
+        return {'how': how, 'o': o}
+    if how == 'setdefault':
+        if R and rng.random() < 0.3:
+            return {'how': how, 'r': rng.choice([x for x, _ in R]), 'm': [[new_sensor(), P()]]}   # present: no effect
+        r, ms = new_rig_entry()
+        return {'how': how, 'r': r, 'm': ms}
+    return {'how': how}                                                             # popitem / clear
+
+
+def _gen_history(rng):
+    full = rng.random() < 0.15
+    near = rng.random() < 0.25
+
+    def P():
+        if near and rng.random() < 0.4:
+            return _near_identity(rng, full)
+        return _rand_pose(rng, full)
+    rigs, free = _gen_forest(rng, rng.choice([1, 2, 2, 3]), rng.choice([1, 2, 2, 3]), rng.randint(0, 2), full, P)
+    cls = rng.choice(['roots', 'roots', 'mixed'])
+    traj = _gen_traj(rng, rigs, free, rng.choice([1, 2, 2, 3]), cls, full, P)
+    R = copy.deepcopy(rigs)
+    G = traj                      # the last trajectories the generator wrote itself (for master lists)
+    free = list(free)
+    steps, level, hows = [], 'rigs', []
+
+    def call(fn):
+        st = {'s': 'call', 'fn': fn, 'masters': None}
+        if fn.startswith('recover'):
+            mk = rng.choice(['none'] * 7 + ['valid', 'valid', 'junk'])
+            try:
+                st['masters'] = _gen_masters(rng, copy.deepcopy(R), G, mk)
+            except Exception:   # noqa  (forest no longer valid: any list will do)
+                st['masters'] = ['nobody']
+        steps.append(st)
+    for b in range(rng.randint(2, 4)):
+        if b > 0:
+            for _ in range(rng.choice([1, 1, 2, 3])):
+                e = _gen_edit(rng, R, free, P)
+                before = {d for _, ms in R for d, _ in ms}
+                _model_edit(R, e)
+                rg, parents = _forest({'rigs': R})
+                free = [d for d in dict.fromkeys(free + sorted(before)) if d not in rg and d not in parents]
+                steps.append(dict(e, s='edit'))
+                hows.append(e['how'])
+            if level == 'sensors' or rng.random() < 0.6:
+                try:
+                    c = rng.choice(['roots', 'roots', 'mixed'])
+                    if not _judge({'rigs': R, 'traj': []})['forest_ok']:
+                        raise ValueError
+                    G = _gen_traj(rng, copy.deepcopy(R), [f for f in free if rng.random() < 0.7], rng.choice([1, 2, 2, 3]), c, full, P)
+                except Exception:   # noqa
+                    G = [[1, [[r, P()] for r, _ in R[:2]] or [['lonely', P()]]]]
+                steps.append({'s': 'traj', 'traj': G})
+                level = 'rigs'
+        if level == 'rigs':
+            seq, level = rng.choice([(['remove_ip', 'recover', 'recover_ip'], 'rigs'),
+                                     (['remove', 'remove_ip', 'recover_ip'], 'rigs'),
+                                     (['recover', 'remove_ip', 'recover_ip'], 'rigs'),
+                                     (['recover_ip', 'remove_ip', 'recover'], 'sensors'),
+                                     (['remove_ip', 'recover'], 'sensors')])
+        else:
+            seq, level = rng.choice([(['recover', 'recover_ip'], 'rigs'), (['recover'], 'sensors'),
+                                     (['recover_ip', 'remove_ip', 'recover'], 'sensors')])
+        for fn in seq:
+            call(fn)
+    return {'kind': 'history', 'rigs': rigs, 'traj': traj, 'steps': steps,
+            'cls': 'history:' + cls + ('/near' if near else '') + ('/full' if full else '')}
+
+
 def gen_cases(rng, tier):
     cases = []
     n_main = 230 if tier == 'quick' else 2000
@@ -426,6 +721,11 @@ def gen_cases(rng, tier):
     n_bad = 45 if tier == 'quick' else 360
     for k in range(n_bad):
         cases.append(_malformed(rng, k))
+    # the two streams below come last so that the streams above draw the same cases as before they were added
+    for _ in range(48 if tier == 'quick' else 400):
+        cases.append(_gen_near_identity_case(rng))
+    for _ in range(40 if tier == 'quick' else 320):
+        cases.append(_gen_history(rng))
     return cases
 
 
@@ -464,8 +764,98 @@ def _call(fn):
         return 'other:' + type(e).__name__, None
 
 
+def _pt(p):
+    import kapture
+    return kapture.PoseTransform(r=list(p[:4]), t=list(p[4:]))
+
+
+def _apply_edit(rigs, e):
+    """the edit on the real Rigs object, through the very path it names"""
+    import kapture
+    how = e['how']
+    if how == 'pair_set':
+        rigs[e['r'], e['d']] = _pt(e['p'])
+    elif how == 'rig_set':
+        rigs[e['r']] = {d: _pt(p) for d, p in e['m']}
+    elif how == 'inner_set':
+        rigs[e['r']][e['d']] = _pt(e['p'])
+    elif how == 'inner_update':
+        rigs[e['r']].update({d: _pt(p) for d, p in e['m']})
+    elif how == 'inner_del':
+        del rigs[e['r']][e['d']]
+    elif how == 'inner_pop':
+        rigs[e['r']].pop(e['d'])
+    elif how == 'rig_del':
+        del rigs[e['r']]
+    elif how == 'pop':
+        rigs.pop(e['r'])
+    elif how == 'popitem':
+        rigs.popitem()
+    elif how in ('update', 'ior'):
+        other = kapture.Rigs()
+        for r, ms in e['o']:
+            other[r] = {}
+            for d, p in ms:
+                other[r, d] = _pt(p)
+        if how == 'update':
+            rigs.update(other)
+        else:
+            same = rigs
+            same |= other
+            assert same is rigs
+    elif how == 'setdefault':
+        rigs.setdefault(e['r'], {d: _pt(p) for d, p in e['m']})
+    elif how == 'clear':
+        rigs.clear()
+    else:
+        raise ValueError('unknown edit ' + how)
+
+
+def _run_history(case):
+    """every step on the SAME Rigs object and the SAME Trajectories object"""
+    import kapture
+    rigs, traj = _build(case['rigs'], case['traj'])
+    fns = {'remove': kapture.rigs_remove, 'remove_ip': kapture.rigs_remove_inplace,
+           'recover': kapture.rigs_recover, 'recover_ip': kapture.rigs_recover_inplace}
+    out = []
+    for st in case['steps']:
+        if st['s'] == 'edit':
+            exc, _ = _call(lambda: _apply_edit(rigs, st))
+            out.append({'exc': exc, 'rigs': _dump(rigs)})
+        elif st['s'] == 'traj':
+            traj.clear()
+            for t, m in st['traj']:
+                traj.setdefault(int(t), {})
+                for d, p in m:
+                    traj[int(t), d] = _pt(p)
+            out.append({'traj': _dump(traj)})
+        else:
+            fn, ms = st['fn'], st.get('masters')
+            name = 'rigs_' + fn.replace('_ip', '_inplace')
+            r0, t0 = _dump(rigs), _dump(traj)
+            if fn.startswith('recover'):
+                exc, res = _call(lambda: fns[fn](traj, rigs, None if ms is None else list(ms)))
+            else:
+                exc, res = _call(lambda: fns[fn](traj, rigs))
+            after, impure = _dump(traj), []
+            if _dump(rigs) != r0:
+                impure.append(name + ' changed rigs')
+            if fn.endswith('_ip'):
+                state = after
+            else:
+                state = _dump(res) if res is not None else None
+                if after != t0:
+                    impure.append(name + ' changed its trajectories argument')
+                if res is traj:
+                    impure.append(name + ' returned its argument')
+            out.append({'before': t0, 'exc': exc, 'state': state, 'pure': not impure, 'impure': impure})
+    return {'steps': out}
+
+
 def run_impl(case, ctx):
     import kapture
+    if case.get('kind') == 'history':
+        return _run_history(case)
     obs = {'pure': True, 'impure': []}
 
     def run_pair(copy_fn, inplace_fn, traj_l):
@@ -539,12 +929,13 @@ def _check_removed(case, J, o, which):
     return None
 
 
-def _check_recovered(case, J, removed, o, which):
+def _check_recovered(inp_l, J, removed, o, which):
+    """inp_l: the trajectories rigs_remove replaced (None when the input of recover is not such a result)"""
     if o['exc'] != 'none' or o['state'] is None:
         return f'{which} raised {o["exc"]} on the output of rigs_remove'
     rigs, parents, chains = J['rigs'], J['parents'], J['chains']
     got = {t: dict(m) for t, m in o['state']}
-    inp = {t: dict(m) for t, m in case['traj']}
+    inp = {t: dict(m) for t, m in (inp_l or [])}
     for t, m in inp.items():
         for d, p in m.items():
             if d in rigs and d not in parents:
@@ -573,7 +964,52 @@ def _check_recovered(case, J, removed, o, which):
     return None
 
 
+def _same_rigs(a, b):
+    return {r: dict((d, tuple(g)) for d, g in ms) for r, ms in a} == {r: dict((d, tuple(g)) for d, g in ms) for r, ms in b}
+
+
+def _oracle_history(case, obs):
+    """every call against the rigs and the trajectories AS THEY ARE at that call (snapshots of the real objects)"""
+    R = case['rigs']
+    origin = None          # the trajectories are the untouched result of a judged rigs_remove_inplace(inp) under rigs R0
+    for st, o in zip(case['steps'], obs['steps']):
+        if st['s'] == 'edit':
+            R = o['rigs']
+            continue
+        if st['s'] == 'traj':
+            origin = None
+            continue
+        fn = st['fn']
+        name = 'rigs_' + fn.replace('_ip', '_inplace')
+        if not o['pure']:
+            return 'arguments modified: ' + '; '.join(sorted(set(o['impure'])))
+        tb = o['before']
+        pc = {'rigs': R, 'traj': tb, 'masters': st.get('masters')}
+        J = _judge(pc)
+        if fn.startswith('remove'):
+            if J['remove_judged']:
+                sig = _check_removed(pc, J, o, name)
+                if sig:
+                    return sig + ' (history on one Rigs object)'
+            if fn == 'remove_ip':
+                origin = ({'inp': tb, 'rigs': R, 'out': o['state']}
+                          if J['remove_judged'] and o['exc'] == 'none' and _consistent(pc, J) else None)
+        else:
+            if J['remove_judged'] and _consistent(pc, J) and _masters_ok(pc, J, tb):
+                inp = None
+                if origin is not None and origin['out'] == tb and _same_rigs(origin['rigs'], R):
+                    inp = origin['inp']
+                sig = _check_recovered(inp, J, tb, o, name)
+                if sig:
+                    return sig + ' (history on one Rigs object)'
+            if fn == 'recover_ip':
+                origin = None
+    return None
+
+
 def oracle(case, obs):
+    if case.get('kind') == 'history':
+        return _oracle_history(case, obs)
     if not obs['pure']:
         return 'arguments modified: ' + '; '.join(sorted(set(obs['impure'])))
     J = _judge(case)
@@ -589,7 +1025,7 @@ def oracle(case, obs):
     if not _consistent(case, J) or not _masters_ok(case, J, removed):
         return None
     for which in ('recover', 'recover_ip'):
-        sig = _check_recovered(case, J, removed, obs[which], 'rigs_recover' + ('_inplace' if which.endswith('ip') else ''))
+        sig = _check_recovered(case['traj'], J, removed, obs[which], 'rigs_recover' + ('_inplace' if which.endswith('ip') else ''))
         if sig:
             return sig
     return None
@@ -611,7 +1047,67 @@ def _ctraj(tr):
 _EXC = {'none': 'ENone', 'runtime': 'ERuntime', 'key': 'EKey'}
 
 
+def _cedit(e):
+    how = e['how']
+    S, inner = kv.cstr, _cinner
+    if how == 'pair_set':
+        return f'(ESetPair {S(e["r"])} {S(e["d"])} {_cpose(e["p"])})'
+    if how == 'rig_set':
+        return f'(ESetRig {S(e["r"])} {inner(e["m"])})'
+    if how == 'inner_set':
+        return f'(ESetInner {S(e["r"])} {S(e["d"])} {_cpose(e["p"])})'
+    if how == 'inner_update':
+        return f'(EUpdInner {S(e["r"])} {inner(e["m"])})'
+    if how in ('inner_del', 'inner_pop'):
+        return f'(EDelInner {S(e["r"])} {S(e["d"])})'
+    if how in ('rig_del', 'pop'):
+        return f'(EDelRig {S(e["r"])})'
+    if how == 'popitem':
+        return 'EPopItem'
+    if how in ('update', 'ior'):
+        return '(EUpdate %s)' % kv.clist(kv.cpair(S(r), inner(ms)) for r, ms in e['o'])
+    if how == 'setdefault':
+        return f'(ESetDefault {S(e["r"])} {inner(e["m"])})'
+    if how == 'clear':
+        return 'EClear'
+    raise ValueError(how)
+
+
+_KIND = {'remove': 'KRemove', 'remove_ip': 'KRemoveIp', 'recover': 'KRecover', 'recover_ip': 'KRecoverIp'}
+
+
+def _encode_history(case, obs):
+    lets, names = [], {}
+
+    def share(x, ty, enc):
+        key = ty + repr(x)
+        if key not in names:
+            names[key] = f'u{len(names)}'
+            lets.append(f'let {names[key]} : {ty} pose := {enc(x)} in')
+        return names[key]
+
+    def crigs(rl):
+        return kv.clist(kv.cpair(kv.cstr(r), _cinner(ms)) for r, ms in rl)
+    steps = []
+    for st, o in zip(case['steps'], obs['steps']):
+        if st['s'] == 'edit':
+            steps.append(f'HEdit {_cedit(st)} {_EXC.get(o["exc"], "EOther")} {share(o["rigs"], "rigs", crigs)}')
+        elif st['s'] == 'traj':
+            steps.append(f'HTraj {share(o["traj"], "traj", _ctraj)}')
+        else:
+            ms = st.get('masters')
+            state = 'None' if o['state'] is None else f'(Some {share(o["state"], "traj", _ctraj)})'
+            steps.append('HCall %s %s {| o_exc := %s; o_state := %s |} %s' % (
+                _KIND[st['fn']], kv.copt(None if ms is None else kv.clist(kv.cstr(x) for x in ms)),
+                _EXC.get(o['exc'], 'EOther'), state, kv.cbool(o['pure'])))
+    body = '{| h_rigs := %s; h_traj := %s; h_steps := %s |}' % (
+        share(case['rigs'], 'rigs', crigs), share(case['traj'], 'traj', _ctraj), kv.clist(steps))
+    return '(XHist (' + '\n'.join(lets) + '\n' + body + '))'
+
+
 def encode(case, obs):
+    if case.get('kind') == 'history':
+        return _encode_history(case, obs)
     lets, names = [], {}
 
     def share(tr):
@@ -636,16 +1132,36 @@ def encode(case, obs):
         'o_pure': kv.cbool(obs['pure']),
     }
     body = '{| ' + '; '.join(f'{k} := {v}' for k, v in fields.items()) + ' |}'
-    return '(' + '\n'.join(lets) + '\n' + body + ')'
+    return '(XOne (' + '\n'.join(lets) + '\n' + body + '))'
 
 
 # ------------------------------------------------------------------ evidence helpers
+def _history_calls(case, obs):
+    """(rigs snapshot, step, observation) for every call of a history"""
+    R = case['rigs']
+    for st, o in zip(case['steps'], obs['steps']):
+        if st['s'] == 'edit':
+            R = o['rigs']
+        elif st['s'] == 'call':
+            yield R, st, o
+
+
 def nontrivial(case, obs):
+    if case.get('kind') == 'history':
+        return any(d in {r for r, _ in R} for R, _, o in _history_calls(case, obs) for _, m in o['before'] for d, _ in m)
     rigs = {r for r, _ in case['rigs']}
     return any(d in rigs for _, m in case['traj'] for d, _ in m)
 
 
 def classify(case, obs):
+    if case.get('kind') == 'history':
+        judged = sum(1 for R, st, o in _history_calls(case, obs) if _judge({'rigs': R, 'traj': o['before']})['remove_judged'])
+        edits = [st['how'] for st in case['steps'] if st['s'] == 'edit']
+        excs = sorted({o['exc'] for _, _, o in _history_calls(case, obs)} - {'none'})
+        calls = sum(1 for st in case['steps'] if st['s'] == 'call')
+        kinds = sorted({'inner' if h.startswith('inner') else 'setitem' if h in ('pair_set', 'rig_set') else 'dict' for h in edits})
+        return (f'{case.get("cls", "history")}/edits={"+".join(kinds) or "-"}/all_calls_judged={int(judged == calls)}'
+                f'/exc={"+".join(excs) or "none"}')
     J = _judge(case)
     rec = 'norec' if obs['recover'] is None else obs['recover']['exc']
     return (f'{case.get("cls", "?")}/depth={J["depth"] if J["forest_ok"] else "x"}/judged={int(J["remove_judged"])}'
@@ -653,6 +1169,18 @@ def classify(case, obs):
 
 
 def describe(case, obs):
+    if case.get('kind') == 'history':
+        def brief(st, o):
+            if st['s'] == 'edit':
+                return {k: v for k, v in st.items() if k in ('how', 'r', 'd')} | {'raised': o['exc']}
+            if st['s'] == 'traj':
+                return {'refill': [[t, [d for d, _ in m]] for t, m in o['traj']]}
+            return {'call': st['fn'], 'masters': st.get('masters'), 'exc': o['exc'],
+                    'before': [[t, [d for d, _ in m]] for t, m in o['before']],
+                    'result': None if o['state'] is None else [[t, [d for d, _ in m]] for t, m in o['state']]}
+        return {'rigs': [[r, [d for d, _ in ms]] for r, ms in case['rigs']],
+                'traj_keys': [[t, [d for d, _ in m]] for t, m in case['traj']],
+                'steps': [brief(st, o) for st, o in zip(case['steps'], obs['steps'])]}
     return {'rigs': [[r, [d for d, _ in ms]] for r, ms in case['rigs']],
             'traj_keys': [[t, [d for d, _ in m]] for t, m in case['traj']], 'masters': case['masters'],
             'after_remove': None if obs['remove']['state'] is None else [[t, [d for d, _ in m]] for t, m in obs['remove']['state']],
@@ -661,7 +1189,33 @@ def describe(case, obs):
             'exceptions': [obs['remove']['exc'], obs['remove_ip']['exc'], obs['recover'] and obs['recover']['exc']]}
 
 
+def _shrink_history(case):
+    for i in reversed(range(len(case['steps']))):
+        c = copy.deepcopy(case)
+        del c['steps'][i]
+        yield c
+    for i in range(len(case['traj'])):
+        if len(case['traj']) > 1:
+            c = copy.deepcopy(case)
+            del c['traj'][i]
+            yield c
+    for k, st in enumerate(case['steps']):
+        if st['s'] == 'traj':
+            for i in range(len(st['traj'])):
+                if len(st['traj']) > 1:
+                    c = copy.deepcopy(case)
+                    del c['steps'][k]['traj'][i]
+                    yield c
+        if st['s'] == 'call' and st.get('masters'):
+            c = copy.deepcopy(case)
+            c['steps'][k]['masters'] = None
+            yield c
+
+
 def shrink(case):
+    if case.get('kind') == 'history':
+        yield from _shrink_history(case)
+        return
     for i in range(len(case['traj'])):
         c = copy.deepcopy(case)
         del c['traj'][i]
@@ -691,15 +1245,19 @@ TECHNIQUE = ('Coq proofs about an executable Gallina model of the job-list itera
              'rigs_recover_inplace, parametric in the pose algebra and instantiated with the rigid-transform group over Q '
              '(MPose/PPose, C05): invariants over the job folds and over the fuel (max_depth), a consistency invariant '
              '(every entry equals the world pose of its device) for the inverse law; differential correspondence of the '
-             'model with the four real functions by vm_compute')
+             'model with the four real functions by vm_compute, on single calls and on histories (calls interleaved with edits '
+             'of ONE Rigs object through every dict path; the model applies the edits itself and is compared at every call)')
 LEVEL_TEXT = ('Theorems in coq/Props/C06.v hold for every rig forest of nesting depth <= 10 and every trajectories: after '
               'rigs_remove no rig id remains, entries of non-rig devices are untouched, each sensor below a posed rig gets '
               'compose(path poses leaf->root ++ [rig pose]), nothing else appears, no exception; recover after remove (masters '
               'unspecified, any depth) gives back (==) every top-level rig pose and leaves every posed sensor at its world pose, '
               'with no world hypothesis when only top-level rigs and free sensors are posed; with a master list that names a live member '
               'of every rig with something posed below it (any depth): every such top-level rig is recovered, no sensor moves; KeyError unreachable; a depth-11 '
-              'chain keeps a rig id (the bound is real). The model is tied to the code by running the four real functions on '
-              'generated forests / trajectories and comparing key sets exactly and poses to 1e-9 inside Coq.')
+              'chain keeps a rig id (the bound is real); over histories (calls interleaved with any edits of the rigs and refills) '
+              'every call returns what the function returns on the current (rigs, trajectories), and the inverse law holds for the '
+              'geometry of now. The model is tied to the code by running the four real functions on '
+              'generated forests / trajectories (single calls and histories on one Rigs / one Trajectories object) and comparing '
+              'key sets exactly and poses to 1e-9 inside Coq.')
 LEVEL_NOTE = ('not modelled: float rounding of compose/inverse (1e-9 tolerance of the property), numba/numpy internals; deepcopy is '
               'modelled (drops empty timestamps) and observed by snapshots; the executable (code-arithmetic) instance and the '
               'specification instance of the model differ by the 1e-14 unit-band branch of the rotation matrix (C05). '
